@@ -75,8 +75,108 @@ theorem include_equiv (P : Prims) (O : OutPrims) (cfg : Cfg) (fs : FS)
 theorem incFuel_succ (P : Prims) (O : OutPrims) (cfg : Cfg) (fs : FS) (n : Nat) :
     incFuel P O cfg fs (n + 1) = renderFileWith P O cfg fs (incFuel P O cfg fs n) := rfl
 
+/-! ### Closed form: the whole include in one equation -/
+
+/-- the source `ctx.RenderFile` renders: the file on disk, else (only when it does not exist) the
+    source registered in the cache -/
+def fileSource (fs : FS) (f : Bytes) : Option Bytes :=
+  match fs.read f with
+  | .content b => some b
+  | .notExist => fs.cache f
+  | .otherError => none
+
+/-- **C14 (include_denotation).** `{% include e %}` where `e` evaluates to the string `rel`, the
+    file `dir(path)/rel` has source `src` (on disk, or in the cache when no such file exists),
+    `src` compiles (at the include tag's location) to `root`, and rendering `root` directly with a
+    copy of the includer's current variables gives `out`: the include node does exactly one thing —
+    it writes `out` to the includer's writer (failures located at the include tag). Composes
+    `include_resolves`, `disk_over_cache`/`cache_fallback` and `include_equiv`. -/
+theorem include_denotation (c : RCtx) (fs : FS) (inner : Nat → Bytes → Env → Prog (Status × Bytes))
+    (hinc : c.inc = renderFileWith c.P c.O c.cfg fs inner)
+    (line : Nat) (args : Bytes) (s : RS) (e : Expr) (rel src : Bytes) (root : List Node) (out : Bytes)
+    (he : parseExprSource args = .ok e) (hv : evaluate c.P s.env e = .ok (.str rel))
+    (hsrc : fileSource fs (joinPath (dirPath c.cfg.path) rel) = some src)
+    (hc : compileSource c.cfg.delims src line = .ok root)
+    (hr : (renderRoot { c with inc := inner } root s.env).runPure = (out, .ok .done)) :
+    renderNode c (.incl line args) s =
+      wrapFailAt c.cfg.path ⟨line, true⟩ (do writeM out; pure .done) s := by
+  have hfile : c.inc line (joinPath (dirPath c.cfg.path) rel) s.env = .ret (.done, out) := by
+    rw [hinc]
+    unfold fileSource at hsrc
+    unfold renderFileWith
+    cases hrd : fs.read (joinPath (dirPath c.cfg.path) rel) with
+    | content b =>
+      simp only [hrd, Option.some.injEq] at hsrc
+      subst hsrc
+      simp only [hc, hr]
+    | notExist =>
+      simp only [hrd] at hsrc
+      simp only [hsrc, hc, hr]
+    | otherError => simp [hrd] at hsrc
+  rw [include_resolves c line args s e rel he hv]
+  simp only [wrapAt, hfile, Prog.bind, wrapFailAt, M.mapFail, bind, M.bind, pure, M.pure]
+  unfold writeM
+  simp only
+  split
+  · rfl
+  · simp only [Prog.bind, Prog.mapFail]
+    congr 1
+    funext r
+    cases r <;> rfl
+
+/-- …so on a writer that does not fail: the bytes of `out` become the pending text of the
+    includer's trim writer (after the previously pending text has gone out; left-trimmed when a
+    `-%}` precedes), and the variables after the include are the variables before it — whatever
+    the included template assigned. -/
+theorem include_denotation_run (c : RCtx) (fs : FS) (inner : Nat → Bytes → Env → Prog (Status × Bytes))
+    (hinc : c.inc = renderFileWith c.P c.O c.cfg fs inner)
+    (line : Nat) (args : Bytes) (s : RS) (e : Expr) (rel src : Bytes) (root : List Node) (out : Bytes)
+    (he : parseExprSource args = .ok e) (hv : evaluate c.P s.env e = .ok (.str rel))
+    (hsrc : fileSource fs (joinPath (dirPath c.cfg.path) rel) = some src)
+    (hc : compileSource c.cfg.delims src line = .ok root)
+    (hr : (renderRoot { c with inc := inner } root s.env).runPure = (out, .ok .done)) :
+    (renderNode c (.incl line args) s).runPure =
+      (s.tw.buf, .ok (.done, { env := s.env,
+                               tw := { buf := if s.tw.trim then trimLeftSpace out else out, trim := false } })) := by
+  rw [include_denotation c fs inner hinc line args s e rel src root out he hv hsrc hc hr]
+  simp only [wrapFailAt, M.mapFail, bind, M.bind, pure, M.pure]
+  unfold writeM
+  simp only
+  split
+  · next hb =>
+    have : s.tw.buf = [] := by simpa using hb
+    simp only [Prog.bind, Prog.mapFail, Prog.runPure, this]
+  · simp only [Prog.bind, Prog.mapFail, Prog.runPure, List.append_nil]
+
+/-- the same for the engine's own context: at fuel `n+1` the included file is rendered by the
+    context of fuel `n` -/
+theorem include_denotation_mk (P : Prims) (O : OutPrims) (cfg : Cfg) (fs : FS) (fuel : Nat)
+    (line : Nat) (args : Bytes) (s : RS) (e : Expr) (rel src : Bytes) (root : List Node) (out : Bytes)
+    (he : parseExprSource args = .ok e) (hv : evaluate P s.env e = .ok (.str rel))
+    (hsrc : fileSource fs (joinPath (dirPath cfg.path) rel) = some src)
+    (hc : compileSource cfg.delims src line = .ok root)
+    (hr : (renderRoot (mkCtx P O cfg fs fuel) root s.env).runPure = (out, .ok .done)) :
+    renderNode (mkCtx P O cfg fs (fuel + 1)) (.incl line args) s =
+      wrapFailAt cfg.path ⟨line, true⟩ (do writeM out; pure .done) s :=
+  include_denotation (mkCtx P O cfg fs (fuel + 1)) fs (incFuel P O cfg fs fuel) rfl line args s e rel src root out
+    he hv hsrc hc hr
+
 /-! Non-vacuity: path resolution on concrete paths -/
 -- joinPath (dirPath "dir/t.liquid") "inc/a.html" = "dir/inc/a.html"
 example : joinPath (dirPath [100, 105, 114, 47, 116, 46, 108, 105, 113, 117, 105, 100]) [105, 110, 99, 47, 97, 46, 104, 116, 109, 108] = [100, 105, 114, 47, 105, 110, 99, 47, 97, 46, 104, 116, 109, 108] := by decide
 -- "../x" relative to "a/b/t" is "a/x"
 example : joinPath (dirPath [97, 47, 98, 47, 116]) [46, 46, 47, 120] = [97, 47, 120] := by decide
+
+/-! Non-vacuity of `include_denotation`: disk wins over the cache, the cache serves a missing file -/
+example : fileSource ⟨fun _ => .content [97], fun _ => some [98]⟩ [102] = some [97] := rfl
+example : fileSource ⟨fun _ => .notExist, fun _ => some [98]⟩ [102] = some [98] := rfl
+example : fileSource ⟨fun _ => .otherError, fun _ => some [98]⟩ [102] = none := rfl
+/-- all hypotheses of `include_denotation` at once: `{% include "f" %}` where the file `f` (found on
+    disk) contains `hi` inserts `hi` -/
+example (P : Prims) (O : OutPrims) :
+    renderNode (mkCtx P O {} ⟨fun _ => .content [104, 105], fun _ => none⟩ 1) (.incl 1 [34, 102, 34]) ⟨[], {}⟩ =
+      wrapFailAt [] ⟨1, true⟩ (do writeM [104, 105]; pure .done) ⟨[], {}⟩ :=
+  include_denotation_mk P O {} ⟨fun _ => .content [104, 105], fun _ => none⟩ 0 1 [34, 102, 34] ⟨[], {}⟩
+    (.lit (.str [102])) [102] [104, 105] [.text 1 [104, 105]] [104, 105] rfl rfl rfl rfl
+    (by simp [renderRoot, renderList, renderNode, wrapFailAt, M.mapFail, M.bind, M.pure, writeM, flushM, Prog.bind,
+      Prog.mapFail, Prog.runPure, bind, pure])
